@@ -68,9 +68,13 @@ pub fn create_with(disk: &Disk, kp: PartialKeypair, cache: CacheCfg) -> CallResu
 
 /// Create a fresh core over whatever the disk holds (`Storage::open(.., overwrite = true)`).
 pub fn create_overwrite(disk: &Disk, kp: PartialKeypair) -> CallResult<Hypercore> {
+    create_overwrite_with(disk, kp, CacheCfg::Off)
+}
+
+pub fn create_overwrite_with(disk: &Disk, kp: PartialKeypair, cache: CacheCfg) -> CallResult<Hypercore> {
     run(async {
         let storage = disk.storage_overwrite_async().await?;
-        HypercoreBuilder::new(storage).key_pair(kp).build().await
+        with_cache(HypercoreBuilder::new(storage).key_pair(kp), cache).build().await
     })
 }
 
